@@ -310,3 +310,36 @@ func GenCase(t *rapid.T, withFaults bool) *Case {
 	c.RandSeed = int64(rapid.IntRange(1, 1<<30).Draw(t, "randSeed"))
 	return c
 }
+
+// GenHeldMove builds a run in which a relief move certainly happens while scrapes of the source shard are in
+// flight (slow targets): the update that marks the moving target in_transfer is applied by the source's API
+// goroutine while its proxy goroutine is still waiting for the target.  Afterwards the destination is scraped
+// more often than the source, so that the source's own count decides when it may let go.
+func GenHeldMove(t *rapid.T) *Case {
+	c := &Case{L: 100, P: 300, InitShards: 2, Max: 8, Idle: rapid.SampledFrom([]string{"off", "long"}).Draw(t, "idle"),
+		InitScrapes: []int{rapid.IntRange(3, 5).Draw(t, "srcScrapes"), 3}, Min: int32(rapid.IntRange(0, 2).Draw(t, "min"))}
+	c.Targets = []FarmSpec{{Hash: 1, Job: "j0", Series: 60, Total: 60, Healthy: true}, {Hash: 2, Job: "j0", Series: 55, Total: 55, Healthy: true}}
+	c.Init = []InitCopy{{Shard: 0, Hash: 1}, {Shard: 0, Hash: 2}}
+	if rapid.Bool().Draw(t, "third") {
+		c.Targets = append(c.Targets, FarmSpec{Hash: 3, Job: "j1", Series: 10, Total: 20, Healthy: true})
+		c.Init = append(c.Init, InitCopy{Shard: 1, Hash: 3})
+	}
+	// which scrapes of the source are in flight when the move begins: all of them, or one target's
+	c.Prefix = append(c.Prefix, Action{Kind: "scrapeHeld", Shard: 0, Hash: uint64(rapid.IntRange(0, 2).Draw(t, "heldHash"))})
+	c.Prefix = append(c.Prefix, Action{Kind: "cycle"})
+	for r := rapid.IntRange(1, 3).Draw(t, "rounds"); r > 0; r-- {
+		l := fmt.Sprintf("r%d", r)
+		for k := rapid.IntRange(1, 4).Draw(t, l+"-dst"); k > 0; k-- {
+			c.Prefix = append(c.Prefix, Action{Kind: "scrape", Shard: 1})
+		}
+		for k := rapid.IntRange(0, 1).Draw(t, l+"-src"); k > 0; k-- {
+			c.Prefix = append(c.Prefix, Action{Kind: "scrape", Shard: 0})
+		}
+		if rapid.IntRange(0, 3).Draw(t, l+"-heldAgain") == 0 {
+			c.Prefix = append(c.Prefix, Action{Kind: "scrapeHeld", Shard: 0})
+		}
+		c.Prefix = append(c.Prefix, Action{Kind: "cycle"})
+	}
+	c.RandSeed = int64(rapid.IntRange(1, 1<<30).Draw(t, "randSeed"))
+	return c
+}
